@@ -99,7 +99,7 @@ def add_new_constant_tensor(
   new_tensor.shape = data.shape
   new_tensor.buffer = tensor_buffer_id
   new_tensor.type = tensor_type
-  new_tensor.name = tensor_name
+  new_tensor.name = _get_unique_tensor_name(tensor_name, subgraph)
   new_tensor_id = len(subgraph.tensors)
   subgraph.tensors.append(new_tensor)
   return new_tensor_id
